@@ -678,3 +678,11 @@ mod tests {
         assert_eq!(table.theta(), kth);
     }
 }
+
+#[cfg(feature = "verif-hooks")]
+impl ThetaHashTable {
+    /// Verification hook: (lg_cur_size, raw slots of the open-addressed table).
+    pub(crate) fn verif_table(&self) -> (u8, Vec<u64>) {
+        (self.lg_cur_size, self.entries.clone())
+    }
+}
